@@ -105,3 +105,9 @@ add('C04', 'Hypothesis-generated objectives and constraint sets (active / inacti
     'that follow from the Fischer-Burmeister termination test; strictly convex QPs with linear constraints are compared with an enumeration of all 2^m active sets; the callback history is checked for '
     'non-negative multipliers and non-decreasing penalties; the bound-constrained front end is checked with its own multipliers, with and without PrecondStrategy and constraintStiffnessScaling. Sampling.',
     'Non-returns (NameError) are counted, not asserted; sub-solver tolerance = 0.5*AL tolerance and reset_kappa() as all callers do; penalties fixed per compiled objective (baked into the FB residual).')
+add('C02', 'Hypothesis-generated distorted meshes, materials with evolved internal state, displacement fields, essential-BC subsets, block partitions and Newmark parameters; differential oracle: element-wise assembled matrix vs jax.hessian of the library energy as a whole',
+    'Generated search over seven groups of (factory, material, 2D mode, pressure projection, element order) cells: the matrix assembled from element stiffness blocks through the DofManager '
+    'index maps is compared with the unknown x unknown block of the AD Hessian of compute_strain_energy / compute_algorithmic_energy with respect to the full nodal field (1e-9 relative), '
+    'symmetry, and multi-block vs single-block energy / stiffness / state update with interleaved block element ids. Sampling; order 3 and more materials in the thorough tier.',
+    'AD of the global energy is the reference for the second derivative (a different code path from the vmapped element Hessians and the COO assembly); the factories are rebuilt from traced '
+    'coordinates with a static parent element and quadrature rule; pressure-projection cells are built eagerly per case; shards that exhaust their time budget report the remainder as inconclusive.')
